@@ -165,8 +165,8 @@ def make_programs(ctx, datadir):
     P.append(sized_prog("tinyudp", "tiny-sized", [58, 59, 100, 300, 1000], datadir, r))
     P.append(tcp_prog("tinytcp", [10, 200, 0, 33], datadir, r))
     # medium / several multiples of the buffer
-    for i in range(8 if t else 2):
-        P.append(random_prog("med%d" % i, r, "medium-random", r.randint(15, 40), 200, 0.35))
+    for i in range(8 if t else 1):
+        P.append(random_prog("med%d" % i, r, "medium-random", r.randint(60, 120) if t else 45, 300, 0.0))
     P.append(sized_prog("multi8k", "multiples-of-8192", [r.choice([400, 1000, 1500, 2048, 4096]) for _ in range(30 if t else 14)],
                         datadir, r))
     for i in range(4 if t else 1):
@@ -367,7 +367,7 @@ def model_status(m):
 
 # ---------------------------------------------------------------- offsets
 
-def choose_offsets(ctx, p, full_upto, nrandom):
+def choose_offsets(ctx, p, full_upto, nrandom, radius=40):
     total = len(p.base)
     if total <= full_upto:
         offs = set(range(0, total + 1))
@@ -375,7 +375,7 @@ def choose_offsets(ctx, p, full_upto, nrandom):
         offs = set(range(0, min(total, 65) + 1))
         marks = list(range(CAP, total + CAP, CAP)) + list(p.bounds) + [total]
         for m in marks:
-            for d in range(-40, 41):
+            for d in range(-radius, radius + 1):
                 if 0 <= m + d <= total:
                     offs.add(m + d)
         for _ in range(nrandom):
@@ -691,11 +691,12 @@ def run(ctx):
             ctx.fail("panic-without-fault", "%s: %s" % (p.name, p.status), replay_dict(p, None, True))
     # offsets
     full_upto = 40000 if ctx.thorough else 2600
-    nrandom = 400 if ctx.thorough else 40
+    nrandom = 400 if ctx.thorough else 30
+    radius = 40 if ctx.thorough else 20
     jobs, mcases = [], []
     sizes, noffs, straddle = {}, 0, 0
     for i, p in enumerate(P):
-        offs = choose_offsets(ctx, p, full_upto, nrandom)
+        offs = choose_offsets(ctx, p, full_upto, nrandom, radius)
         sizes[p.name] = {"kind": p.kind, "bytes": len(p.base), "records": len(p.bounds), "offsets": len(offs),
                          "fault_free": p.status}
         noffs += len(offs)
@@ -709,7 +710,7 @@ def run(ctx):
         mcases.append((p.name, "both", True, p.src, mfiles(p), offs))
     ctx.rng.shuffle(jobs)
     t0 = time.time()
-    model = model_cases(mcases, xcheck=61)
+    model = model_cases(mcases, xcheck=199)
     t1 = time.time()
     results = run_pool(jobs)
     t2 = time.time()
